@@ -15,6 +15,7 @@ package step
 //
 //@ func iface StageChangeHandler.OnStageChange(step, previousStage, previousStageOutputID, previousStageOutput, newStage, inputAvailable, wg)
 //@   requires [no-lock-held-in-callback] nolocks()
+//@   requires [wait-group-given] wg != nil
 //@   requires [stage-finished-at-most-once] previousStage != nil ==> reported(step, *previousStage) == 0
 //@   requires [output-declared-for-stage] previousStage != nil && previousStageOutputID != nil ==> declares(step, *previousStage, *previousStageOutputID) && previousStageOutput != nil
 //@   requires [no-stage-change-after-completion] completions(step) == 0
@@ -24,6 +25,7 @@ package step
 //
 //@ func iface StageChangeHandler.OnStepComplete(step, previousStage, previousStageOutputID, previousStageOutput, wg)
 //@   requires [no-lock-held-in-callback] nolocks()
+//@   requires [wait-group-given] wg != nil
 //@   requires [stage-finished-at-most-once] reported(step, previousStage) == 0
 //@   requires [output-declared-for-stage] previousStageOutputID != nil ==> declares(step, previousStage, *previousStageOutputID) && previousStageOutput != nil
 //@   requires [exactly-one-completion] completions(step) == 0
@@ -38,3 +40,21 @@ package step
 //@   modifies ghost reported
 //@   ensures reported(step, stage) == 2
 //@   ensures forall s RunningStep, g string :: (s != step || g != stage) ==> reported(s, g) == old(reported(s, g))
+//
+// The step interfaces as the run loop uses them. forceclosed(s): ForceClose has been called on s.
+//@ ghost forceclosed(s RunningStep) bool
+//@ func iface RunnableStep.Start(input, runID, stageChangeHandler)
+//@   requires stageChangeHandler != nil
+//@   ensures [step-or-error] (result1 == nil) != (result == nil)
+//@   ensures [new-step-is-not-closed] result1 == nil ==> !forceclosed(result)
+//@ func iface RunningStep.ProvideStageInput(stage, input)
+//@ func iface RunningStep.State()
+//@ func iface RunningStep.CurrentStage()
+//@ func iface RunningStep.ForceClose()
+//@   requires [no-lock-held-while-closing] nolocks()
+//@   modifies ghost forceclosed
+//@   ensures forceclosed(self)
+//@   ensures [both-providers-always-return-nil] result == nil
+//@   ensures forall s RunningStep :: s != self ==> forceclosed(s) == old(forceclosed(s))
+//@ func iface RunningStep.Close()
+//@   requires [no-lock-held-while-closing] nolocks()
